@@ -529,3 +529,34 @@ def surface_hopping_run(sc: Dict[str, Any], stop_at: Optional[int] = None, timeo
         return out
     finally:
         shutil.rmtree(d, ignore_errors=True)
+
+
+# --------------------------------------------------------------------------- one call in a child with a wall-clock bound
+class CallTimeout(RuntimeError):
+    pass
+
+
+def _cwt_child(fn, arg, q):
+    try:
+        q.put({"out": fn(arg)})
+    except BaseException:
+        import traceback
+        q.put({"exc": traceback.format_exc()[-1500:]})
+
+
+def call_with_timeout(fn, arg, timeout: float):
+    """run fn(arg) in a forked child; raise CallTimeout if it does not return in `timeout` seconds (child is killed)"""
+    ctx = mp.get_context("fork")
+    q = ctx.Queue()
+    p = ctx.Process(target=_cwt_child, args=(fn, arg, q))
+    p.start()
+    try:
+        res = q.get(timeout=timeout)
+    except Exception:
+        p.kill()
+        p.join()
+        raise CallTimeout(f"no result within {timeout:.0f} s")
+    p.join(5)
+    if "exc" in res:
+        raise RuntimeError(res["exc"])
+    return res["out"]
